@@ -5,7 +5,7 @@ CONSTANTS
   InitConsts <- Consts4
   NamePool = {"a", "b"}
   Focus = {"ReplaceInput","ResizeInputs","ResizeOutputs","ReplaceAllUses","ReplaceAllUsesSeq","NewNode","IOAppend","GRemove"}
-  SeedIds = {1,3,4}
+  SeedIds = {1,3,4,6}
   OpGraphs = {1}
   ForeignOps = {"IOAppend"}
   PairVals = {1,2,5}
